@@ -309,9 +309,24 @@ rt_build(struct rt_inst *in, const struct rt_desc *d)
             ra->mem = in->store[i];
         }
     }
+    /* what initialisation has to compute must not depend on what was there before: the links of areas and
+     * entries hold leftovers in every third table written field by field (as when a description is rebuilt in
+     * place, or lives in memory nobody zeroed) */
+    const int leftovers = !via_macros && ((rt_build_toggle + vh_unit_salt / 2) % 3u == 0);
+    if (leftovers) {
+        for (int i = 0; i < d->nareas; i++) {
+            in->areas[i].entry.first = (RegisterHandle)(0xa5a50000u + (unsigned)i);
+            in->areas[i].entry.last = (RegisterHandle)(0x5a5a0000u + (unsigned)i);
+            in->areas[i].entry.count = (RegisterHandle)(7u + (unsigned)i);
+        }
+    }
     for (int i = 0; i < d->nregs; i++) {
         const struct rt_reg *r = &d->reg[i];
         RegisterEntry *e = &in->entries[i];
+        if (leftovers) {
+            e->area = &in->areas[d->nareas]; /* the sentinel: nobody's area */
+            e->offset = 0xdeadu; /* (the touched marks are not initialisation's to reset: no statement says so) */
+        }
         if (via_macros) {
             rt_entry_via_macros(e, r);
             continue;
